@@ -135,3 +135,59 @@ pub fn run_stdin() -> Result<(), String> {
     }
     Ok(())
 }
+
+/// `gcrace SENDS`: thread B only clones and drops handles (no transaction, no send) while thread A sends; every
+/// transaction of A ends with a cycle collection.  Not a forced schedule: the OS scheduler decides.  Prints one line:
+/// `gcrace=ok delivered=N`, `gcrace=lost delivered=K of N`, or `gcrace=panic <message>`.
+pub fn gcrace(args: &[String]) -> Result<(), String> {
+    use std::sync::atomic::{AtomicBool, Ordering};
+    let n_send: i64 = args.first().and_then(|a| a.parse().ok()).unwrap_or(2000);
+    let r = std::panic::catch_unwind(std::panic::AssertUnwindSafe(|| {
+        let ctx = SodiumCtx::new();
+        let ss: StreamSink<i64> = ctx.new_stream_sink();
+        let mut chain = vec![ss.stream()];
+        for _ in 0..100 {
+            let last = chain.last().unwrap().clone();
+            chain.push(last.map(|a: &i64| *a + 1).or_else(&last));
+        }
+        let count = Arc::new(Mutex::new(0i64));
+        let c2 = count.clone();
+        let l = chain.last().unwrap().listen(move |_: &i64| *c2.lock().unwrap() += 1);
+        let stop = Arc::new(AtomicBool::new(false));
+        let hb = {
+            let chain = chain.clone();
+            let stop = stop.clone();
+            std::thread::spawn(move || {
+                while !stop.load(Ordering::SeqCst) {
+                    for s in &chain {
+                        let c = s.clone();
+                        drop(c);
+                    }
+                }
+            })
+        };
+        let sent = std::panic::catch_unwind(std::panic::AssertUnwindSafe(|| {
+            for i in 0..n_send {
+                ss.send(i);
+            }
+        }));
+        stop.store(true, Ordering::SeqCst);
+        let _ = hb.join();
+        let delivered = *count.lock().unwrap();
+        std::mem::forget(l);
+        std::mem::forget(chain);
+        std::mem::forget(ss);
+        std::mem::forget(ctx);
+        match sent {
+            Err(p) => format!("gcrace=panic {}", crate::panic_message(&*p)),
+            Ok(()) if delivered == n_send => format!("gcrace=ok delivered={delivered}"),
+            Ok(()) => format!("gcrace=lost delivered={delivered} of {n_send}"),
+        }
+    }));
+    match r {
+        Ok(line) => println!("{line}"),
+        Err(p) => println!("gcrace=panic {}", crate::panic_message(&*p)),
+    }
+    let _ = std::io::stdout().flush();
+    Ok(())
+}
